@@ -178,7 +178,7 @@ func init() {
 			"R08.4 the encoder is base32.StdEncoding.WithPadding(NoPadding) and a successful return hands out exactly that string; no state is kept between calls (no entropy pool). Not decided: quality of the OS source.",
 		trusted:  []string{"crypto/rand.Read fills the whole buffer or returns an error", "encoding/base32"},
 		quick:    []Config{CfgNative},
-		thorough: []Config{CfgNative, Cfg386, CfgWasm},
+		thorough: []Config{CfgNative, CfgWasm, Cfg386},
 		run:      runC08,
 	})
 }
